@@ -17,7 +17,9 @@ class P(vlib.Prop):
             "sbom-index.spdx.json are compared with the model run THROUGH the provenance model of pkg/build/sbom.go (Model/SbomProv.v over what "
             "goextract traced) and judged by the validators against the directly written expected input; lic stage: mergeLicensingInfos on "
             "hand-picked and random (source, target) pairs (conflicts, duplicates, first-of-id decides) and Generate on embedded documents with "
-            "hasExtractedLicensingInfos (shared infos, conflicting texts, unused documents, no target, failing copy). The generate and e2e stages "
+            "hasExtractedLicensingInfos (shared infos, conflicting texts, unused documents, no target, failing copy). The lic stage also runs readReleaseData on in-memory filesystems with and without etc/os-release (comments, CRLF, quotes inside and "
+            "around values, repeated keys, spaces around =, lines without =, invalid UTF-8, random token soups); the e2e stage hands Coq the os-release CONTENT of the "
+            "flattened image and the model parses it (release_version_of) to get the version every layer element must carry. The generate and e2e stages "
             "print the distribution of embedded-SBOM shapes (candidate file name, described / target / same-name element counts, graph depth, "
             "copy sweeps, cycles, File- relationships, undefined references) and the generate stage refuses to run if its corpus lacks one of them. "
             "A case is non-trivial when the installed set / image list / todo set / source infos are non-empty (ident: when the "
@@ -37,6 +39,7 @@ class P(vlib.Prop):
         "the embedded documents' own element ids are valid SPDX ids; licence references inside packages (licenseConcluded/licenseDeclared) are not modelled, only the extracted licensing infos they point to",
         "img.Manifest().Layers / img.Digest() are the manifest and digest of the image that is written (C06/C12 cover those; the e2e stage recomputes them from the layout blobs); that GenerateImageSBOM/GenerateIndexSBOM hand them over unchanged is modelled (Model/SbomProv.v), read from the source by goextract and proved (c11_image_sbom_inputs, c11_index_sbom_inputs)",
         "the images map of GenerateIndexSBOM has pairwise distinct architecture strings (it is a Go map keyed by architecture); under that the order of the index document does not depend on map iteration (c11_index_sbom_inputs)",
+        "lines of /etc/os-release are shorter than bufio.MaxScanTokenSize (64 KiB; a longer line makes the real scanner fail) and the file is a regular file",
         "Go ranges over the targetElementIDs map in an arbitrary order: the model takes the order as a parameter, theorems quantify over it, the harness collects every outcome of 200 runs when a document describes several elements",
     )
     level_text = ("Theorems c11_* hold for every input (unbounded package lists, names, embedded graphs, every map iteration order) about an executable model of "
@@ -46,13 +49,13 @@ class P(vlib.Prop):
                   "c11_one_per_apk: without embedded SBOMs every installed apk has exactly one element and the ids are distinct for EVERY set of pairwise distinct (name, version), colliding identifiers included (the defect C11-F1, fixed in /repo by 7c2586e, is kept as the regression replay c11_one_per_apk_collision_fixed and as corpus cases; c11_repair_conservative: nothing changes where the ids were distinct). "
                   "The inputs of the generator are inside the model: c11_image_sbom_inputs / c11_all_installed_handed_over / c11_index_sbom_inputs state that pkg/build/sbom.go hands over the built "
                   "image's digest, its manifest's layers, every installed paragraph whatever its architecture field, and every image of the index in architecture order; they compute with the "
-                  "assignment sources goextract traces in sbom.go on every run. mergeLicensingInfos: union keyed by id, target first, every source info kept with its text, failure exactly on a conflict.")
+                  "assignment sources goextract traces in sbom.go on every run. readReleaseData (Model/SbomRelease.v): c11_os_release_fields - for every file content ID / NAME / VERSION_ID are what the LAST assigning line assigns (text before the first =, value without surrounding double quotes), empty when never assigned; c11_os_release_fails_iff_malformed - error exactly on a line without =. mergeLicensingInfos: union keyed by id, target first, every source info kept with its text, failure exactly on a conflict.")
     level_note = ("trusted: Coq kernel, goextract (incl. its tracing of single-definition locals in sbom.go), Go harness/printer, encoding/json; modelled not verified: the Go text of spdx.go, "
                   "Go regexp (maximal runs of a character class), apkfs.MemFS lookups, sort.Slice (any sorted permutation), GetInstalled / Manifest / Digest themselves; correspondence is differential testing, not proof")
     design_ref = "DESIGN.md 7 C11"
     modelled_not_verified = ("stringToIdentifier, Generate, ProcessInternalApkSBOM, copySBOMElements, replacePackage, the final de-duplication and GenerateIndex are "
                              "modelled by hand (Model/Sbom.v; whether and how Generate numbers an id that is taken — fix 7c2586e — is regenerated: Generated/C11Prov.apk_id_policy, read from the loop between stringToIdentifier and the append and from idTakenByAnother), mergeLicensingInfos and its place in the apk loop in Model/SbomLic.v; validIDCharsRe is regenerated from spdx.go; the provenance of "
                              "the generator's inputs in pkg/build/sbom.go is regenerated (Generated/C11Prov.v) and interpreted by Model/SbomProv.v; purls, licence expressions of packages, "
-                             "suppliers, creation info, document name, readReleaseData's parsing and the SBOM file names are not modelled")
+                             "suppliers, creation info, document name and the SBOM file names are not modelled; readReleaseData is modelled by hand (Model/SbomRelease.v; its key names and defaults are not regenerated)")
 
 PROP = P()
